@@ -24,10 +24,15 @@ def main():
         os.makedirs(d)
     names = ["f1.root", "f2.root", "f3.root"]
     cfg = sc["files"]
-    n = {"one": 1, "two_same_dir": 2, "three_same_dir": 3, "two_dirs": 2, "one_missing": 2, "none": 0}[cfg]
+    n = {"one": 1, "two_same_dir": 2, "three_same_dir": 3, "two_dirs": 2, "nested_dir": 2, "nested_rev": 2,
+         "one_missing": 2, "none": 0}[cfg]
+    sub = os.path.join(d1, "sub")
+    os.makedirs(sub)
     files = []
     for i in range(n):
         d = d2 if (cfg == "two_dirs" and i == 1) else d1
+        if (cfg == "nested_dir" and i == 1) or (cfg == "nested_rev" and i == 0):
+            d = sub
         p = os.path.join(d, names[i])
         if not (cfg == "one_missing" and i == 1):
             open(p, "w").write("data %d\n" % i)
